@@ -236,9 +236,6 @@ Section CONTAINER.
     - destruct has; [now apply child_chks_nopanic|reflexivity].
   Qed.
 
-  Hypothesis Hreq : st_asreq st = false.
-  Hypothesis Hrep : st_asrep st = false.
-
   Definition key_ok (c : score) (has_ap : bool) (r_props r_ap : list (string * outcome)) (kv : string * json) : bool :=
     match assoc (fst kv) r_props with
     | Some o => accepts o
@@ -249,22 +246,40 @@ Section CONTAINER.
         end
     end.
 
+  Definition pnn (l : list (string * json)) (k : string) : bool :=
+    match assoc k l with Some x => negb (is_null x) | None => false end.
+
+  Lemma rw_chks_ok l (props : list (string * score)) :
+    forallb chk_ok (rw_chks st l props) =
+    forallb (fun kp => negb (pnn l (fst kp) && forbidden (md_of st) (snd kp))) props.
+  Proof.
+    unfold rw_chks.
+    induction props as [|[k pc] props IH].
+    - destruct (st_asreq st || st_asrep st); reflexivity.
+    - cbn [forallb fst snd]. rewrite <- IH. clear IH.
+      unfold forbidden, md_of, pnn; cbn [sm_req sm_rep sm_ro sm_wo].
+      destruct (st_asreq st), (st_asrep st); cbn [orb andb flat_map fst snd];
+        rewrite ?forallb_app; rewrite ?Bool.andb_false_r; cbn [negb andb]; try reflexivity;
+        (destruct (assoc k l) as [x|]; [destruct (is_null x)|]);
+        destruct (c_readOnly pc), (c_writeOnly pc), (st_roOff st), (st_woOff st); reflexivity.
+  Qed.
+
   Lemma obj_checks_ok c l props has_ap r_props r_ap :
     g_small_here c = true ->
     forallb chk_ok (obj_checks st c l props has_ap r_props r_ap) =
     permits c "object" &&
+    forallb (fun kp => negb (pnn l (fst kp) && forbidden (md_of st) (snd kp))) props &&
     N.leb (c_minProps c) (N.of_nat (List.length l)) &&
     match c_maxProps c with Some m => N.leb (N.of_nat (List.length l)) m | None => true end &&
     forallb (key_ok c has_ap r_props r_ap) l &&
-    forallb (fun k => str_in k (map fst l)) (c_required c).
+    forallb (fun k => str_in k (map fst l) ||
+                      match assoc k props with Some pc => exempt (md_of st) pc | None => false end) (c_required c).
   Proof.
     intros Hs. unfold obj_checks.
     rewrite !forallb_app. cbn [forallb].
     unfold g_small_here in Hs. repeat (apply andb_prop in Hs as [Hs ?]).
     rewrite <- !nat_N_Z. rewrite min_bound_chk, max_bound_chk by assumption.
-    assert (Hrw : rw_chks st l props = []).
-    { unfold rw_chks. now rewrite Hreq, Hrep. }
-    rewrite Hrw. cbn [forallb].
+    rewrite rw_chks_ok.
     assert (Hk : forallb chk_ok (map (key_chk c (JObj l) has_ap r_props r_ap) l)
                  = forallb (key_ok c has_ap r_props r_ap) l).
     { rewrite forallb_map'. apply forallb_ext'. intros [k x]. unfold key_ok, key_chk. cbn [fst].
@@ -273,12 +288,14 @@ Section CONTAINER.
         (destruct has_ap; [|reflexivity]); (destruct (assoc k r_ap) as [o|]; [destruct o; reflexivity|reflexivity]). }
     rewrite Hk.
     assert (Hr : forallb chk_ok (map (req_chk st c (JObj l) l props) (c_required c))
-                 = forallb (fun k => str_in k (map fst l)) (c_required c)).
-    { rewrite forallb_map'. apply forallb_ext'. intros k. unfold req_chk. rewrite Hreq, Hrep.
+                 = forallb (fun k => str_in k (map fst l) ||
+                      match assoc k props with Some pc => exempt (md_of st) pc | None => false end) (c_required c)).
+    { rewrite forallb_map'. apply forallb_ext'. intros k. unfold req_chk, exempt, md_of. cbn [sm_req sm_rep].
       assert (Ha : forall (l0 : list (string * json)), str_in k (map fst l0) = match assoc k l0 with Some _ => true | None => false end).
       { induction l0 as [|[k' x'] l0 IH]; cbn; [reflexivity|]. destruct (String.eqb k k'); [reflexivity|exact IH]. }
-      rewrite Ha. destruct (assoc k l); [reflexivity|].
-      destruct (assoc k props); [rewrite !Bool.andb_false_r|]; reflexivity. }
+      rewrite Ha. destruct (assoc k l); [reflexivity|]. cbn [orb].
+      destruct (assoc k props) as [pc|]; [|reflexivity].
+      destruct ((c_readOnly pc && st_asreq st) || (c_writeOnly pc && st_asrep st)); reflexivity. }
     rewrite Hr.
     destruct (permits c "object"); cbn [chk_ok andb]; [|reflexivity].
     repeat rewrite Bool.andb_true_r. rewrite !Bool.andb_assoc. reflexivity.
@@ -410,20 +427,6 @@ End IND.
 
 (* ------------------------------------------------------------------------------------ *)
 (* guards of the main theorem and their behaviour on sub-terms                            *)
-Fixpoint g_wf (v : json) : bool :=
-  match v with
-  | JArr l => forallb g_wf l
-  | JObj l => nodup_str (map fst l) && forallb (fun kv => g_wf (snd kv)) l
-  | _ => true
-  end.
-Definition vg (v : json) : bool := all_finite v && g_uniq v && g_wf v.
-
-Definition here_ok (rc : string -> bool) (s : schema) : bool :=
-  g_empty_here s && g_excl_here (core_of s) && g_small_here (core_of s) &&
-  g_pattern_here rc (core_of s) &&
-  match s with Sch _ _ _ _ _ _ props _ => nodup_str (map fst props) end.
-Definition g_all (rc : string -> bool) : schema -> bool := all_sub (here_ok rc).
-
 Lemma vg_arr l x : vg (JArr l) = true -> In x l -> vg x = true.
 Proof.
   unfold vg. cbn [all_finite g_uniq g_wf]. intros H Hin.
